@@ -144,9 +144,10 @@ def make_eq(case):
     name, base, members, flag = case["decl"]
     ET = _T(name, base, members, flag)
     OT = ["enum", "Other", base, {"A": 1, "Q": 2}, flag]
-    T = ["struct", "test", [["e", ET, None], ["o", OT, None]], False]
+    XT = ["enum", "OtherKind", base, {"A": 1, "Q": 2}, not flag]    # the other kind (enum vs flag) over the same values
+    T = ["struct", "test", [["e", ET, None], ["o", OT, None], ["x", XT, None]], False]
     cs, cls = H.load(T, case["cfg"])
-    E, O = getattr(cs, ET[1]), cs.Other
+    E, O, X = getattr(cs, ET[1]), cs.Other, cs.OtherKind
     w, _ = H.layout(case["cfg"]).size_align(base)
     lo, hi = R.int_range(w, base[2])
 
@@ -161,6 +162,10 @@ def make_eq(case):
         ctx.check("E(a) != a + 1", ea != a + 1)
         ctx.check("members of another enum never compare equal", R.Not(ea == oa))
         ctx.check("members of another enum compare unequal", ea != oa)
+        if not (base[2] and not flag):   # (a flag over a signed type folds negative values: known finding)
+            xa = X(a)
+            ctx.check("enum and flag members never compare equal to each other", R.And(R.Not(ea == xa), R.Not(xa == ea)))
+            ctx.check("enum and flag members compare unequal to each other", R.And(ea != xa, xa != ea))
         ctx.check("equal objects hash equally", R.Implies(a == b, hash(ea) == hash(eb)))
         ctx.check("value preserved", R.And(ea.value == a, eb.value == b))
     return run
